@@ -7,7 +7,7 @@ from harness.common import bud
 from harness.sessions import SB
 
 PROP = "C13"
-MODULES = ["CassisModel.Properties.C13"]
+MODULES = ["CassisModel.Properties.C13", "CassisModel.Properties.C13Self"]
 THEOREMS = [
     "Cassis.TS.merge_consistent",
     "Cassis.TS.merge_contains_all",
@@ -18,6 +18,9 @@ THEOREMS = [
     "Cassis.TS.processDecl_same_super",
     "Cassis.TS.reparent_super",
     "Cassis.TS.merge_empty",
+    "Cassis.TS.merge_single_same",
+    "Cassis.TS.merge_self_same",
+    "Cassis.TS.merge_empty_same",
 ]
 ASSUMPTIONS = [
     "order/grouping independence is NOT proved (only stated): it is checked by exhaustive enumeration of all permutations and groupings over small pools and by random large pools (partial)",
